@@ -144,6 +144,11 @@ func vsOnlyOptionBytesMissing(exp, got []byte, hasMap bool) bool {
 	return dp[len(got)]
 }
 
+// hasByteLeaf: the type holds a byte string ([]byte, string, []uint8) somewhere.
+func (t *vsT) hasByteLeaf() bool {
+	return t.hasKind("bytes") || t.hasKind("str") || strings.Contains(t.String(), "slice(u8)")
+}
+
 func (t *vsT) hasKind(k string) bool {
 	if t == nil {
 		return false
@@ -713,9 +718,32 @@ func vsDecode(t *vsT, b []byte) vsDecoded {
 	vsPrep(t, dst.Elem(), true)
 	d.dst = dst
 	in := append([]byte(nil), b...)
-	d.panicMsg, d.timeout = vGuard(20*time.Second, func() {
-		d.alloc = vsAllocDuring(func() { d.err = Unmarshal(in, dst.Interface()) })
-	})
+	// watchdog: 10 s is an observation (timeout); the call is then awaited (up to 10 more minutes) so that
+	// it cannot keep allocating behind the back of the next cases' allocation measurements
+	done := make(chan string, 1)
+	go func() {
+		done <- vTry(func() { d.alloc = vsAllocDuring(func() { d.err = Unmarshal(in, dst.Interface()) }) })
+	}()
+	select {
+	case d.panicMsg = <-done:
+	case <-time.After(10 * time.Second):
+		d.timeout = true
+		select {
+		case <-done:
+		case <-time.After(10 * time.Minute):
+		}
+		runtime.GC()
+	}
+	if !d.timeout && d.panicMsg == "" && d.alloc > vsAllocBudget(len(b)) && d.alloc < 16<<20 {
+		// TotalAlloc is process wide: confirm a moderate excess by measuring once more, keep the minimum
+		dst3 := reflect.New(t.goType())
+		vsPrep(t, dst3.Elem(), true)
+		in3 := append([]byte(nil), b...)
+		var a2 uint64
+		if vTry(func() { a2 = vsAllocDuring(func() { _ = Unmarshal(in3, dst3.Interface()) }) }) == "" && a2 < d.alloc {
+			d.alloc = a2
+		}
+	}
 	if d.alloc > 1<<20 {
 		runtime.GC() // megabyte-sized zero-filled results must not pile up between collections
 	}
@@ -828,7 +856,14 @@ func vsRunDec(res *vResult, bi, si int, c *vsCase, raw json.RawMessage) {
 	}
 	switch {
 	case d.timeout:
-		res.Fail(bi, si, "dec", "Unmarshal", specV, "timeout", "C12/timeout/"+where, raw)
+		// with a byte string in the type, a lenient earlier field can hand a gigabyte length prefix to
+		// decodeBytes; zeroing gigabytes takes longer than the watchdog in this sandbox.  Attributed to
+		// the recorded up-front allocation; a type without byte strings keeps the timeout signature.
+		sig := "C12/timeout/" + where
+		if t.hasByteLeaf() {
+			sig = "C12/alloc/declared-byte-length"
+		}
+		res.Fail(bi, si, "dec", "Unmarshal", specV, "timeout", sig, raw)
 		return
 	case d.panicMsg != "":
 		res.Fail(bi, si, "dec", "Unmarshal", specV, d.panicMsg, "C12/panic/"+vsPanicClass(d.panicMsg)+"/"+where, raw)
@@ -838,7 +873,7 @@ func vsRunDec(res *vResult, bi, si int, c *vsCase, raw json.RawMessage) {
 		// the one place that allocates from a declared length is the byte-string decoder; a type without
 		// a byte-string leaf that over-allocates is a different defect and keeps its own signature
 		sig := "C12/alloc/" + where
-		if t.hasKind("bytes") || t.hasKind("str") || strings.Contains(t.String(), "slice(u8)") {
+		if t.hasByteLeaf() {
 			sig = "C12/alloc/declared-byte-length"
 		}
 		res.Fail(bi, si, "dec", "allocation", fmt.Sprintf("<= %d bytes for %d input bytes", vsAllocBudget(len(b)), len(b)),
